@@ -128,10 +128,10 @@ def describe(v, depth=0):
     return repr(v)[:300]
 
 
-def check_one(con, vname, fn, case, env0, timeout_s=5):
+def check_one(con, vname, fn, case, env0, timeout_s=5, pid=None):
     """Run one generated case.  case = dict(args=dict, build=callable or None, note=str).
     Returns (status, failures): status in 'skipped' (requires false), 'ok', 'violation'."""
-    params, requires, ensures, raises, may_raise, returns = con.for_variant(vname)
+    params, requires, ensures, raises, may_raise, returns = con.for_variant(vname, pid)
     args = case['make']() if 'make' in case else copy.deepcopy(case['args'])
     env = dict(env0)
     env.update(args)
@@ -218,7 +218,7 @@ def load_contract(modname, target):
     raise KeyError(target)
 
 
-def search(modname, target, vname, seed, budget, tier):
+def search(modname, target, vname, seed, budget, tier, pid=None):
     con, mod = load_contract(modname, target)
     t0 = time.time()
     out = dict(target=target, variant=vname, evaluations=0, accepted=0, skipped=0, violations=[], bound=None,
@@ -240,7 +240,7 @@ def search(modname, target, vname, seed, budget, tier):
             break
         out['evaluations'] += 1
         try:
-            status, failures = check_one(con, vname, fn, case, env0)
+            status, failures = check_one(con, vname, fn, case, env0, pid=pid)
         except Exception as e:
             out.setdefault('harness_errors', []).append(f"{type(e).__name__}: {e} :: {traceback.format_exc()[-400:]}")
             if len(out['harness_errors']) > 5:
@@ -278,7 +278,7 @@ def replay(path):
                               obligation=rec.get('obligation'))))
         return 0
     case = rebuild(rec['recipe'])
-    status, failures = check_one(con, rec.get('variant', ''), fn, case, env0)
+    status, failures = check_one(con, rec.get('variant', ''), fn, case, env0, pid=rec.get('property'))
     print(json.dumps(dict(replayed=True, status=status, failures=failures, obligation=rec.get('obligation')), indent=1))
     return 1 if status == 'violation' else 0
 
@@ -288,7 +288,7 @@ def main(argv):
         modname, target = argv[1], argv[2]
         opts = dict(zip(argv[3::2], argv[4::2]))
         out = search(modname, target, opts.get('--variant', ''), int(opts.get('--seed', '0')),
-                     int(opts.get('--budget', '20000')), opts.get('--tier', 'quick'))
+                     int(opts.get('--budget', '20000')), opts.get('--tier', 'quick'), opts.get('--prop'))
         print(json.dumps(out))
         return 0
     if argv[0] == 'replay':
